@@ -619,19 +619,27 @@ def read_topmatter(text: str | Iterator[str]) -> dict[str, Any] | None:
             return None
         text = (line for line in text.splitlines())
     try:
-        if not next(text).startswith("---"):
-            return None
+        first_line = next(text)
     except StopIteration:
         return None
+    if not first_line.startswith("---"):
+        return None
+    # as for the Markdown front-matter rule (which decides what is rendered),
+    # the block is closed by a line of at least as many dashes as the opening one,
+    # indented by up to three spaces and followed by spaces only, or by a `...` line;
+    # a value line like `--- DRAFT ---` or `... and so on` does not close it
+    marker_count = len(first_line) - len(first_line.lstrip("-"))
+    closing = re.compile(rf" {{0,3}}-{{{marker_count},}}[ \t]*$")
     top_matter = []
     for line in text:
-        # as for the Markdown front-matter rule (which decides what is rendered),
-        # the closing marker may be indented by up to three spaces
-        if re.match(r" {0,3}(---|\.\.\.)", line):
-            break
         # strip the line terminator only: trailing spaces are significant in a
         # block scalar (e.g. a Markdown hard line break in a substitution)
-        top_matter.append(line.rstrip("\r\n") + "\n")
+        line = line.rstrip("\r\n")
+        if closing.match(line):
+            break
+        top_matter.append(line + "\n")
+        if line.lstrip(" \t") == "...":
+            break
     try:
         metadata = yaml.safe_load("".join(top_matter))
     except (
